@@ -164,10 +164,26 @@ fn parse_case(line: &str) -> String {
     }
 }
 
+/// the document of a case: `doc`, wrapped in the single-child containers listed (outermost first) in `wrap` – documents nested deeper than
+/// serde_json's parser admits are built here, in code
+fn doc_of(case: &Value) -> Value {
+    let mut doc = case["doc"].clone();
+    if let Some(ws) = case["wrap"].as_array() {
+        for w in ws.iter().rev() {
+            doc = match w.as_str() {
+                Some("[]") => Value::Array(vec![doc]),
+                Some(k) => { let mut m = serde_json::Map::new(); m.insert(k[1..].to_string(), doc); Value::Object(m) }
+                None => doc,
+            };
+        }
+    }
+    doc
+}
+
 fn eval_case(line: &str) -> String {
     let case: Value = match serde_json::from_str(line) { Ok(v) => v, Err(e) => return format!("{{\"badjson\":\"{}\"}}", e) };
     let q = case["q"].as_str().unwrap_or("").to_string();
-    let doc = case["doc"].clone();
+    let doc = doc_of(&case);
     let before = doc.clone();
     let r = std::panic::catch_unwind(|| {
         let with_path = doc.query_with_path(&q);
@@ -219,7 +235,7 @@ fn eval_case(line: &str) -> String {
 /// untag the wire format of documents: null | {"b"} | {"i":"dec"} | {"f2":[m,e]} | {"s":[cps]} | {"a":[..]} | {"o":[[cps,v]..]}
 fn ref_case(line: &str) -> String {
     let case: Value = match serde_json::from_str(line) { Ok(v) => v, Err(e) => return format!("{{\"badjson\":\"{}\"}}", e) };
-    let mut doc = case["doc"].clone();
+    let mut doc = doc_of(&case);
     let path = case["path"].as_str().unwrap_or("").to_string();
     let newv = case["new"].clone();
     let r = std::panic::catch_unwind(move || {
@@ -240,7 +256,7 @@ fn ref_case(line: &str) -> String {
 /// a sequence of updates through the paths ONE query returned: {"q","doc","news":[v..]} -> paths, which writes took place, document after
 fn refseq_case(line: &str) -> String {
     let case: Value = match serde_json::from_str(line) { Ok(v) => v, Err(e) => return format!("{{\"badjson\":\"{}\"}}", e) };
-    let mut doc = case["doc"].clone();
+    let mut doc = doc_of(&case);
     let q = case["q"].as_str().unwrap_or("").to_string();
     let news: Vec<Value> = case["news"].as_array().cloned().unwrap_or_default();
     let r = std::panic::catch_unwind(move || {
@@ -414,7 +430,7 @@ type Alt2 = AltG<true>;
 fn generic_case<const V: bool>(line: &str) -> String {
     let case: Value = match serde_json::from_str(line) { Ok(v) => v, Err(e) => return format!("{{\"badjson\":\"{}\"}}", e) };
     let q = case["q"].as_str().unwrap_or("").to_string();
-    let doc = AltG::<V>::of(&case["doc"]);
+    let doc = AltG::<V>::of(&doc_of(&case));
     match std::panic::catch_unwind(|| {
         match jsonpath_rust::query::js_path(&q, &doc) {
             Ok(rs) => format!("{{\"ok\":[{}]}}", rs.into_iter().map(|r| { let p = r.clone().path(); let v = r.val(); format!("{{\"p\":{},\"v\":{}}}", cps(&p), canon(&v.back())) }).collect::<Vec<_>>().join(",")),
@@ -497,7 +513,7 @@ fn fn_of(v: &Value) -> TestFunction {
 /// evaluate a programmatically built query (an AST the parser may be unable to produce) through `js_path_process`
 fn ast_case(line: &str) -> String {
     let case: Value = match serde_json::from_str(line) { Ok(v) => v, Err(e) => return format!("{{\"badjson\":\"{}\"}}", e) };
-    let doc = case["doc"].clone();
+    let doc = doc_of(&case);
     let before = doc.clone();
     let r = std::panic::catch_unwind(|| {
         let q = JpQuery::new(case["ast"].as_array().map(|a| a.iter().map(seg_of).collect()).unwrap_or_default());
@@ -516,6 +532,24 @@ fn ast_case(line: &str) -> String {
         }
     });
     match r { Ok(s) => if doc == before { s } else { "{\"docchanged\":1}".to_string() }, Err(_) => "{\"panic\":1}".to_string() }
+}
+
+/// the three entry points on one (query, document), nothing per result node: outcome and number of results only (used for wide and long inputs)
+fn run_case(line: &str) -> String {
+    let case: Value = match serde_json::from_str(line) { Ok(v) => v, Err(e) => return format!("{{\"badjson\":\"{}\"}}", e) };
+    let q = case["q"].as_str().unwrap_or("").to_string();
+    let doc = doc_of(&case);
+    let r = std::panic::catch_unwind(|| {
+        let a = doc.query_with_path(&q).map(|v| v.len());
+        let b = doc.query(&q).map(|v| v.len());
+        let c = doc.query_only_path(&q).map(|v| v.len());
+        match (a, b, c) {
+            (Ok(x), Ok(y), Ok(z)) => format!("{{\"ok\":[],\"n\":{},\"entrypoints_agree\":{}}}", x, x == y && y == z),
+            (Err(_), Err(_), Err(_)) => "{\"err\":1}".to_string(),
+            _ => "{\"ok\":[],\"entrypoints_agree\":false}".to_string(),
+        }
+    });
+    match r { Ok(s) => s, Err(_) => "{\"panic\":1}".to_string() }
 }
 
 fn _assert_send_sync() {
@@ -545,6 +579,7 @@ fn main() {
         let line = line.unwrap();
         let res = match mode.as_str() {
             "eval" => eval_case(&line),
+            "run" => run_case(&line),
             "regex" => regex_case(&line),
             "ref" => ref_case(&line),
             "refseq" => refseq_case(&line),
